@@ -346,6 +346,92 @@ theorem join_upper {l r : T} (h : l = r ∨ (l.isNum = true ∧ r.isNum = true))
     sub r (if l = r then l else if l = .str ∨ r = .str then .str else if l = .float ∨ r = .float then .float else .int) = true := by
   revert h; cases l <;> cases r <;> decide
 
+/-! ### builtin calls -/
+
+theorem trunc_intCast (n : Int) : Num.trunc ((n : K)) = n := by
+  rw [trunc_eq]; split <;> simp
+
+/-- a value in a bool/int slot is the same integer on both sides -/
+theorem rep_integral {t : T} {v w : V K} (h : rep t v = some w) (ht : t.isIntegral = true) :
+    ∃ k, v.num? = some (.i k) ∧ w.num? = some (.i k) ∧ rep .int v = some (.int k) ∧ conv .int w = some (.int k) := by
+  cases t <;> first | (exact absurd ht (by decide)) | skip
+  all_goals cases v <;> first | (cases h; exact ⟨_, rfl, rfl, rfl, rfl⟩) | (exact absurd h (by simp [rep, sub, V.ty]))
+
+theorem abs_sim {t : T} {va wa v : V K} (h : rep t va = some wa) (ht : t.isIntegral = true)
+    (hv : pyAbs va = some v) : ∃ vc, cAbs wa = some vc ∧ rep .int v = some vc := by
+  have key : ∀ n : Int, (if n < 0 then -n else n) = (if 0 < n then n else -n) := by intro n; split <;> split <;> omega
+  cases t <;> first | (exact absurd ht (by decide)) | skip
+  all_goals cases va <;> cases h <;> cases hv
+  · exact ⟨_, rfl, rfl⟩
+  · rename_i b; cases b <;> exact ⟨_, rfl, rfl⟩
+  · rename_i n; exact ⟨_, rfl, by rw [key n]; rfl⟩
+
+theorem cmpN_lt_int (a b : Int) : cmpN (α := K) .lt (.i a) (.i b) = decide (a < b) := rfl
+
+theorem min_sim {ta tb : T} {va vb wa wb v : V K} (ha : rep ta va = some wa) (hb : rep tb vb = some wb)
+    (hta : ta.isIntegral = true) (htb : tb.isIntegral = true) (hv : pyMin va vb = some v) :
+    ∃ vc, cMin .int wa wb = some vc ∧ rep .int v = some vc := by
+  obtain ⟨ka, hva, hwa, hra, hca⟩ := rep_integral ha hta
+  obtain ⟨kb, hvb, hwb, hrb, hcb⟩ := rep_integral hb htb
+  simp only [pyMin, hva, hvb, cmpN_lt_int, Option.some.injEq] at hv
+  simp only [cMin, hwa, hwb, cmpN_lt_int]
+  subst hv
+  by_cases h1 : kb < ka
+  · have h2 : ¬ ka < kb := by omega
+    simp only [h1, h2, decide_true, decide_false, if_true, Bool.false_eq_true, if_false]
+    exact ⟨_, hcb, hrb⟩
+  · by_cases h2 : ka < kb
+    · simp only [h1, h2, decide_true, decide_false, if_true, Bool.false_eq_true, if_false]
+      exact ⟨_, hca, hra⟩
+    · have : ka = kb := by omega
+      subst this
+      simp only [h1, decide_false, Bool.false_eq_true, if_false]
+      exact ⟨_, hcb, hra⟩
+
+theorem max_sim {ta tb : T} {va vb wa wb v : V K} (ha : rep ta va = some wa) (hb : rep tb vb = some wb)
+    (hta : ta.isIntegral = true) (htb : tb.isIntegral = true) (hv : pyMax va vb = some v) :
+    ∃ vc, cMax .int wa wb = some vc ∧ rep .int v = some vc := by
+  obtain ⟨ka, hva, hwa, hra, hca⟩ := rep_integral ha hta
+  obtain ⟨kb, hvb, hwb, hrb, hcb⟩ := rep_integral hb htb
+  simp only [pyMax, hva, hvb, cmpN_lt_int, Option.some.injEq] at hv
+  simp only [cMax, hwa, hwb, cmpN_lt_int]
+  subst hv
+  by_cases h1 : ka < kb
+  · have h2 : ¬ kb < ka := by omega
+    simp only [h1, h2, decide_true, decide_false, if_true, Bool.false_eq_true, if_false]
+    exact ⟨_, hcb, hrb⟩
+  · by_cases h2 : kb < ka
+    · simp only [h1, h2, decide_true, decide_false, if_true, Bool.false_eq_true, if_false]
+      exact ⟨_, hca, hra⟩
+    · have : ka = kb := by omega
+      subst this
+      simp only [h1, decide_false, Bool.false_eq_true, if_false]
+      exact ⟨_, hcb, hra⟩
+
+theorem toInt_sim {t : T} {va wa v : V K} (h : rep t va = some wa) (ht : t.isNum = true)
+    (hv : pyInt va = some v) : ∃ vc, conv .int wa = some vc ∧ rep .int v = some vc := by
+  cases t <;> first | (exact absurd ht (by decide)) | skip
+  all_goals cases va <;> cases h <;> cases hv
+  all_goals first
+    | exact ⟨_, rfl, rfl⟩
+    | exact ⟨_, by simp only [conv, ofInt_eq, trunc_intCast], rfl⟩
+
+theorem conv_float_num {w : V K} {m : N K} (hm : w.num? = some m) : conv .float w = some (.flt m.toF) := by
+  cases w <;> cases hm <;> rfl
+
+theorem toFloat_sim {t : T} {va wa v : V K} (h : rep t va = some wa)
+    (hv : pyFloat va = some v) : ∃ vc, conv .float wa = some vc ∧ rep .float v = some vc := by
+  simp only [pyFloat, Option.map_eq_some_iff] at hv
+  obtain ⟨m, hm, rfl⟩ := hv
+  obtain ⟨m', hm', hF⟩ := rep_num_toF h hm
+  exact ⟨_, by rw [conv_float_num hm', hF], rfl⟩
+
+theorem toBool_sim {t : T} {va wa : V K} (h : rep t va = some wa) (ht : t.isNum = true) :
+    conv .bool wa = some (.bool va.truthy) := by
+  have hs := rep_not_str h ht
+  rw [← rep_truthy h]
+  cases wa <;> first | rfl | exact absurd rfl (hs _)
+
 /-! ### `Tame` unfolded -/
 
 theorem tame_neg {g : TEnv} {a : E K} : Tame g (.neg a) = true ↔
@@ -381,6 +467,36 @@ theorem tame_ite {g : TEnv} {c a b : E K} : Tame g (.ite c a b) = true ↔
     Tame g c = true ∧ Tame g a = true ∧ Tame g b = true ∧ (infer g c).isNum = true ∧
       (infer g a = infer g b ∨ ((infer g a).isNum = true ∧ (infer g b).isNum = true)) := by
   simp [Tame, and_assoc]
+
+theorem tame_abs {g : TEnv} {a : E K} : Tame g (.abs a) = true ↔
+    Tame g a = true ∧ (infer g a).isIntegral = true := by
+  simp [Tame]
+
+theorem tame_min {g : TEnv} {a b : E K} : Tame g (.min a b) = true ↔
+    Tame g a = true ∧ Tame g b = true ∧ (infer g a).isIntegral = true ∧ (infer g b).isIntegral = true ∧
+      (infer g a = .int ∨ infer g b = .int) := by
+  simp [Tame, and_assoc]
+
+theorem tame_max {g : TEnv} {a b : E K} : Tame g (.max a b) = true ↔
+    Tame g a = true ∧ Tame g b = true ∧ (infer g a).isIntegral = true ∧ (infer g b).isIntegral = true ∧
+      (infer g a = .int ∨ infer g b = .int) := by
+  simp [Tame, and_assoc]
+
+theorem tame_toInt {g : TEnv} {a : E K} : Tame g (.toInt a) = true ↔
+    Tame g a = true ∧ (infer g a).isNum = true := by
+  simp [Tame]
+
+theorem tame_toFloat {g : TEnv} {a : E K} : Tame g (.toFloat a) = true ↔
+    Tame g a = true ∧ (infer g a).isNum = true := by
+  simp [Tame]
+
+theorem tame_toBool {g : TEnv} {a : E K} : Tame g (.toBool a) = true ↔
+    Tame g a = true ∧ (infer g a).isNum = true := by
+  simp [Tame]
+
+theorem macroType_integral {l r : T} (hl : l.isIntegral = true) (hr : r.isIntegral = true) (h : l = .int ∨ r = .int) :
+    macroType l r = some .int := by
+  revert hl hr h; cases l <;> cases r <;> decide
 
 /-! ### inferred type = C++ static type -/
 
@@ -453,6 +569,38 @@ theorem ctype_infer (g : TEnv) (e : E K) : Tame g e = true → ctype g e = some 
     rcases h5 with rfl | ⟨hl, hr⟩
     · simp
     · cases l <;> cases r <;> first | rfl | exact absurd hl (by decide) | exact absurd hr (by decide)
+  | abs a ih =>
+    intro ht
+    obtain ⟨h1, h2⟩ := tame_abs.1 ht
+    rw [ctype, ih h1]
+    simp only [infer, Option.bind_some]
+    generalize infer g a = l at *
+    cases l <;> first | rfl | exact absurd h2 (by decide)
+  | min a b iha ihb =>
+    intro ht
+    obtain ⟨h1, h2, h3, h4, h5⟩ := tame_min.1 ht
+    rw [ctype, iha h1, ihb h2]
+    simp only [infer, Option.bind_some, macroType_integral h3 h4 h5]
+  | max a b iha ihb =>
+    intro ht
+    obtain ⟨h1, h2, h3, h4, h5⟩ := tame_max.1 ht
+    rw [ctype, iha h1, ihb h2]
+    simp only [infer, Option.bind_some, macroType_integral h3 h4 h5]
+  | toInt a ih =>
+    intro ht
+    obtain ⟨h1, h2⟩ := tame_toInt.1 ht
+    rw [ctype, ih h1]
+    simp [infer, isNum_ne_str h2]
+  | toFloat a ih =>
+    intro ht
+    obtain ⟨h1, h2⟩ := tame_toFloat.1 ht
+    rw [ctype, ih h1]
+    simp [infer, isNum_ne_str h2]
+  | toBool a ih =>
+    intro ht
+    obtain ⟨h1, h2⟩ := tame_toBool.1 ht
+    rw [ctype, ih h1]
+    simp [infer, isNum_ne_str h2]
 
 /-! ### expression-level simulation -/
 
@@ -577,6 +725,59 @@ theorem evalC_sim (g : TEnv) (py cs : Store K) (hs : StoreRep g py cs) (e : E K)
         obtain ⟨w, hw⟩ := rep_of_sub (t := infer g (.ite c a b)) (sub_trans (rep_sub hrb) hr)
         refine ⟨w, ?_, hw⟩
         rw [if_neg hx, hwb, Option.bind_some, rep_comp hr hrb, hw]
+  | abs a ih =>
+    intro v ht he
+    obtain ⟨h1, h2⟩ := tame_abs.1 ht
+    rw [eval] at he
+    obtain ⟨va, hva, hv⟩ := Option.bind_eq_some_iff.1 he
+    obtain ⟨wa, hwa, hr⟩ := ih va h1 hva
+    obtain ⟨vc, hvc, hr'⟩ := abs_sim hr h2 hv
+    exact ⟨vc, by rw [evalC, hwa]; exact hvc, hr'⟩
+  | min a b iha ihb =>
+    intro v ht he
+    obtain ⟨h1, h2, h3, h4, _⟩ := tame_min.1 ht
+    have hct := ctype_infer g (.min a b) ht
+    rw [eval] at he
+    obtain ⟨va, hva, he⟩ := Option.bind_eq_some_iff.1 he
+    obtain ⟨vb, hvb, hv⟩ := Option.bind_eq_some_iff.1 he
+    obtain ⟨wa, hwa, hra⟩ := iha va h1 hva
+    obtain ⟨wb, hwb, hrb⟩ := ihb vb h2 hvb
+    obtain ⟨vc, hvc, hr⟩ := min_sim hra hrb h3 h4 hv
+    exact ⟨vc, by rw [evalC, hct, hwa, hwb]; exact hvc, hr⟩
+  | max a b iha ihb =>
+    intro v ht he
+    obtain ⟨h1, h2, h3, h4, _⟩ := tame_max.1 ht
+    have hct := ctype_infer g (.max a b) ht
+    rw [eval] at he
+    obtain ⟨va, hva, he⟩ := Option.bind_eq_some_iff.1 he
+    obtain ⟨vb, hvb, hv⟩ := Option.bind_eq_some_iff.1 he
+    obtain ⟨wa, hwa, hra⟩ := iha va h1 hva
+    obtain ⟨wb, hwb, hrb⟩ := ihb vb h2 hvb
+    obtain ⟨vc, hvc, hr⟩ := max_sim hra hrb h3 h4 hv
+    exact ⟨vc, by rw [evalC, hct, hwa, hwb]; exact hvc, hr⟩
+  | toInt a ih =>
+    intro v ht he
+    obtain ⟨h1, h2⟩ := tame_toInt.1 ht
+    rw [eval] at he
+    obtain ⟨va, hva, hv⟩ := Option.bind_eq_some_iff.1 he
+    obtain ⟨wa, hwa, hr⟩ := ih va h1 hva
+    obtain ⟨vc, hvc, hr'⟩ := toInt_sim hr h2 hv
+    exact ⟨vc, by rw [evalC, hwa]; exact hvc, hr'⟩
+  | toFloat a ih =>
+    intro v ht he
+    obtain ⟨h1, _⟩ := tame_toFloat.1 ht
+    rw [eval] at he
+    obtain ⟨va, hva, hv⟩ := Option.bind_eq_some_iff.1 he
+    obtain ⟨wa, hwa, hr⟩ := ih va h1 hva
+    obtain ⟨vc, hvc, hr'⟩ := toFloat_sim hr hv
+    exact ⟨vc, by rw [evalC, hwa]; exact hvc, hr'⟩
+  | toBool a ih =>
+    intro v ht he
+    obtain ⟨h1, h2⟩ := tame_toBool.1 ht
+    rw [eval] at he
+    obtain ⟨va, hva, rfl⟩ := Option.map_eq_some_iff.1 he
+    obtain ⟨wa, hwa, hr⟩ := ih va h1 hva
+    exact ⟨.bool va.truthy, by rw [evalC, hwa]; exact toBool_sim hr h2, rfl⟩
 
 /-! ### stores -/
 
@@ -718,6 +919,9 @@ theorem trunc_five_halves : (Num.trunc (5 / 2 : ℚ)) = 2 := by
   rw [trunc_eq]; norm_num [Int.floor_eq_iff]
 
 theorem trunc_three_halves : (Num.trunc (3 / 2 : ℚ)) = 1 := by
+  rw [trunc_eq]; norm_num [Int.floor_eq_iff]
+
+theorem trunc_nine_quarters : (Num.trunc (9 / 4 : ℚ)) = 2 := by
   rw [trunc_eq]; norm_num [Int.floor_eq_iff]
 
 end Reduino.Lemmas.C02
